@@ -87,6 +87,86 @@ def handleRange (st : St) (op : String) (j : Json) : Option (D (St × Json)) :=
       else Json.null
     return (st, ok (Json.mkObj [("partial", Json.bool (!sl.noPartialNode S)), ("term", Json.bool sl.termGuard),
       ("wf", Json.bool sl.wf), ("det", Json.bool (PM.FromDom.detB S)), ("model", Json.str outcome), ("hyp", hyp)]))
+  -- ---------------- well-formedness of the emitted step (Props/C11.lean `fit_emits_wf_partial`, `delete_emits_wf`,
+  -- `insertInline_emits_wf`): `StepWF` / `aroundShape` / the start half on the model's emitted step (compared exactly with
+  -- the same predicates on the real step), and whether the in-step invariant held over the whole loop (relational)
+  | "fitEmit" => some do
+    let S ← getSchema st j
+    let d ← node (← field j "doc")
+    let f ← nat (← field j "from")
+    let t ← nat (← field j "to")
+    let sl ← slice (← field j "slice")
+    let r := replaceStep S d f t sl
+    let kind : String := match r with
+      | .ok none => "none"
+      | .ok (some (.replaceAround ..)) => "around"
+      | .ok (some _) => "replace"
+      | .error .raises => "raises"
+      | .error .outOfFuel => "outOfFuel"
+      | .error .negInsert => "negInsert"
+    let wf : Json := match r with
+      | .ok (some s) => Json.bool (StepWF s)
+      | _ => Json.null
+    let left : Json := match r with
+      | .ok (some (.replace _ _ s _)) => Json.bool (decide (s.openStart ≤ spineL s.content))
+      | .ok (some (.replaceAround _ _ _ _ s ins _)) =>
+        Json.bool (decide (s.openStart ≤ spineL s.content) && decide ((ins : Int) ≤ s.size))
+      | _ => Json.null
+    let shape : Json := match r with
+      | .ok (some (.replaceAround F T G1 G2 s ins _)) => Json.bool (aroundShape F T G1 G2 s ins)
+      | _ => Json.null
+    -- the loop, when the Fitter is reached
+    let loop : Json :=
+      if f == t && sl.size == 0 then Json.null
+      else match d.resolve f, d.resolve t with
+        | some rf, some rt =>
+          match fitsTriviallyR S rf rt sl with
+          | some false =>
+            match fitInit S rf sl with
+            | .ok st0 =>
+              match fitLoopAll S FitState.inStepB (fitFuel S sl) st0 with
+              | some b => Json.bool b
+              | none => Json.null
+            | .error _ => Json.null
+          | _ => Json.null
+        | _, _ => Json.null
+    let trace (p : FitState → Bool) : Json :=
+      if f == t && sl.size == 0 then Json.null
+      else match d.resolve f, d.resolve t with
+        | some rf, some rt =>
+          match fitsTriviallyR S rf rt sl with
+          | some false =>
+            match fitInit S rf sl with
+            | .ok st0 =>
+              match fitLoopAll S p (fitFuel S sl) st0 with
+              | some b => Json.bool b
+              | none => Json.null
+            | .error _ => Json.null
+          | _ => Json.null
+        | _, _ => Json.null
+    let coherent : Json :=
+      if f == t && sl.size == 0 then Json.null
+      else match d.resolve f, d.resolve t with
+        | some rf, some rt =>
+          match fitsTriviallyR S rf rt sl with
+          | some false =>
+            match fitInit S rf sl with
+            | .ok st0 =>
+              match fitLoopAll S (FitState.coherentB S rf.depth st0.frontier) (fitFuel S sl) st0 with
+              | some b => Json.bool b
+              | none => Json.null
+            | .error _ => Json.null
+          | _ => Json.null
+        | _, _ => Json.null
+    let cls : String :=
+      if sl.content.isEmpty then "empty" else if sl.inlineLeaves S then "inline"
+      else if sl.openStart == 0 && sl.openEnd == 0 then "closed" else "open"
+    return (st, ok (Json.mkObj [("kind", Json.str kind), ("wf", wf), ("left", left), ("shape", shape),
+      ("rel", Json.mkObj [("inStep", loop), ("cls", Json.str cls),
+        ("uStart", trace (fun st => decide (st.unplaced.openStart ≤ spineL st.unplaced.content))),
+        ("uEnd", trace (fun st => decide (st.unplaced.openEnd ≤ spineR st.unplaced.content))),
+        ("uWfRun", Json.bool (unplacedWfRun S d f t sl)), ("coherent", coherent), ("labels", Json.bool S.labelsOKB), ("textStable", Json.bool (textStableC S)), ("slWf", Json.bool sl.wf),
+        ("hyp", Json.bool (PM.FromDom.detB S && S.fillersOKB && S.wrapOKB && S.checkNode d && S.nodeAttrsOK d))])]))
   | "fillBeforeO" => some do
     let S ← getSchema st j
     let dfa := S.dfa (← nat (← field j "ty"))
